@@ -623,6 +623,116 @@ def loop_progress(ctx, rep, clause):
        start.loc(), clause)
 
 
+def _bounds_atoms(test, polarity: bool):
+    """atomic facts about `index` implied by a test being true (polarity=True) or false: set of
+    ('lt_len'|'le_len'|'ge0'|'gt0', ) from comparisons of index with 0 / len(sequence)"""
+    out = set()
+
+    def cmp_atoms(left, op, right, pol):
+        l, r = norm_stmt(left), norm_stmt(right)
+        table = {ast.Lt: '<', ast.LtE: '<=', ast.Gt: '>', ast.GtE: '>='}
+        sym = None
+        for k, v in table.items():
+            if isinstance(op, k):
+                sym = v
+        if sym is None:
+            return
+        if not pol:
+            sym = {'<': '>=', '<=': '>', '>': '<=', '>=': '<'}[sym]
+        # normalise to "index <sym> X"
+        if r == 'index':
+            l, r = r, l
+            sym = {'<': '>', '<=': '>=', '>': '<', '>=': '<='}[sym]
+        if l != 'index':
+            return
+        if r == 'len(sequence)':
+            if sym == '<':
+                out.add('lt_len')
+            elif sym == '<=':
+                out.add('le_len')
+        if r == 'len(sequence) - 1' and sym == '<=':
+            out.add('lt_len')
+        if r == '0':
+            if sym == '>=':
+                out.add('ge0')
+        if r == '-1' and sym == '>':
+            out.add('ge0')
+
+    def walk(t, pol):
+        if isinstance(t, ast.UnaryOp) and isinstance(t.op, ast.Not):
+            walk(t.operand, not pol)
+        elif isinstance(t, ast.BoolOp):
+            conj = isinstance(t.op, ast.And)
+            # facts survive only through a conjunction when true, or a disjunction when false (De Morgan)
+            if conj == pol:
+                for v in t.values:
+                    walk(v, pol)
+        elif isinstance(t, ast.Compare):
+            if pol or len(t.ops) == 1:
+                left = t.left
+                for op, right in zip(t.ops, t.comparators):
+                    cmp_atoms(left, op, right, pol)
+                    left = right
+    walk(test, polarity)
+    return out
+
+
+def error_marker_bounds(ctx, rep, clause):
+    """the format error itself subscripts the input at the error index: that read must be guarded by
+    0 <= index < len(sequence) (an index equal to the length is how end-of-input errors are reported)"""
+    program = ctx.program
+    f = program.func('peptacular.errors:ProFormaFormatError.__init__')
+    n = 0
+
+    def visit(block, facts):
+        nonlocal n
+        for st in block:
+            if isinstance(st, ast.If):
+                visit(st.body, facts | _bounds_atoms(st.test, True))
+                visit(st.orelse, facts | _bounds_atoms(st.test, False))
+                continue
+            for x in ast.walk(st):
+                if isinstance(x, ast.Subscript) and norm_stmt(x.value) == 'sequence' and \
+                        not isinstance(x.slice, ast.Slice) and 'index' in norm_stmt(x.slice):
+                    n += 1
+                    ok = norm_stmt(x.slice) == 'index' and {'lt_len', 'ge0'} <= facts
+                    ob(rep, 'EXC-bounds', f.fq, f'`{norm_stmt(x)}` is guarded by 0 <= index < len(sequence)', ok,
+                       'dominating bounds test', f'`{norm_stmt(x)}` is reached with only {sorted(facts)} established: '
+                       f'an error reported at the end of the input (index == len) raises IndexError from inside the '
+                       f'format error', f.loc(x), clause)
+    visit(f.node.body, set())
+    rep.floor('EXC-bounds', 'subscripts of the input inside ProFormaFormatError', n, 1)
+
+
+def designed_zero(ctx, rep, clause):
+    """the only modification value that resolves to nothing is a bare localisation tag (#tag): every constant
+    zero / empty result of the two resolvers is control dependent on `startswith('#')`"""
+    program = ctx.program
+    n = 0
+    for fq in ('peptacular.mass_calc:_parse_mod_mass', 'peptacular.chem.chem_calc:_parse_mod_comp'):
+        f = program.func(fq)
+
+        def visit(block, tests):
+            nonlocal n
+            for st in block:
+                if isinstance(st, ast.If):
+                    visit(st.body, tests + [norm_stmt(st.test)])
+                    visit(st.orelse, tests)
+                elif isinstance(st, ast.Return) and st.value is not None:
+                    v = st.value
+                    zero = (isinstance(v, ast.Constant) and v.value in (0, 0.0) and v.value is not None and
+                            not isinstance(v.value, bool)) or (isinstance(v, ast.Dict) and not v.keys)
+                    if zero:
+                        n += 1
+                        ok = any("startswith('#')" in t for t in tests)
+                        ob(rep, 'EXC-terminal', fq, f'`{norm_stmt(st)}` is the designed zero of a bare #tag', ok,
+                           "under `mod.startswith('#')`",
+                           f'`{norm_stmt(st)}` under {tests}: a modification value other than a bare localisation tag '
+                           f'resolves to nothing instead of raising', f.loc(st), clause)
+        visit(f.node.body, [])
+    rep.floor('EXC-terminal', 'designed-zero returns in the resolvers', n, 2)
+
+
 def check(ctx, rep):
     rep.explanation = EXPLANATION
     an, program = ctx.analyzer, ctx.program
@@ -635,6 +745,8 @@ def check(ctx, rep):
     raise_discipline(ctx, rep, parse_graph, 'C09c', 'parse')
     handler_discipline(ctx, rep, parse_graph, 'C09c', 'parse')
     loop_progress(ctx, rep, 'C09d')
+    error_marker_bounds(ctx, rep, 'C09a')
+    designed_zero(ctx, rep, 'C09e')
     deferred = reachable(an, program, ['peptacular.mass_calc:mod_mass', 'peptacular.chem.chem_calc:mod_comp',
                                        'peptacular.chem.chem_calc:_parse_mod_delta_mass_only'])
     # the OBO loaders are import-time code reached through the databases, not part of resolving a modification
